@@ -96,6 +96,24 @@ CHECKS.update({
   "DESIGN.md 4 C13 + appendix D"),
 })
 
+CHECKS.update({
+ "C06": ("fault_enumeration", "dialogx",
+  "exhaustive enumeration of the interlock product (device type x front end x hostname x marker x pending changes, PAN-OS HA answers); each combination is a real approve run in-process against a device simulator (fake expect peer / TLS server); transcript classification + device model state decide",
+  "The statement's configuration product is finite and enumerated completely (168 runs). Each run goes through the real login, read, compare and approve code.",
+  "Simulators classify received lines from device semantics; NSX left out (no hostname/marker/HA in the statement).",
+  "DESIGN.md 4 C06"),
+ "C09": ("fault_enumeration", "dialogx",
+  "deviation-bounded stateless exploration of the device side of the dialogue: baseline + every single non-default answer (error text, garbage, stall, close, HTTP status, malformed body, failed/pending commit job, ...) at every answer point, thorough: all ordered pairs; real front ends in-process; oracle on transcript, exit status, status and history files",
+  "For 20 scenarios (5 device types x 4 front ends) every answer point x every deviation kind is run (1556 runs quick). Exhaustive for deviation bound 1 (thorough: bound 2 for do-approve approve).",
+  "One chunk per device answer; goexpect replaced by a synchronous stand-in (virtual time); HTTPS stalls are real.",
+  "DESIGN.md 4 C09"),
+ "C11": ("fault_enumeration", "dialogx",
+  "same explorer as C09 on compare dialogues x interlock variants; oracle: transcript read-only (by simulator classification) and device model state unchanged",
+  "47 compare scenarios (device type x front end x interlock variant), baseline + every single deviation at every point (2421 runs), thorough all ordered pairs.",
+  "As C09.",
+  "DESIGN.md 4 C11"),
+})
+
 NOT_YET = "check not built yet in this round (design in DESIGN.md section 4); no technique switch intended"
 
 def main():
